@@ -1,9 +1,12 @@
 #!/bin/sh
 # usage: trypatch.sh <patch.diff> <property>...   — applies the patch to /repo, runs the quick checks, restores /repo
 P=$1; shift
+trap 'git -C /repo checkout -- . ; git -C /repo clean -fdq' EXIT INT TERM PIPE
 git -C /repo apply "$P" || { echo "patch does not apply"; exit 2; }
+OUT=$(mktemp)
 for id in "$@"; do
   out=$(/verif/check.sh $id quick 2>&1); rc=$?
-  echo "== $id rc=$rc"; echo "$out" | grep -A1 "^VIOLATION" | head -${LINES_MAX:-12}
+  { echo "== $id rc=$rc"; echo "$out" | grep -A1 "^VIOLATION" | head -${LINES_MAX:-12}; } >> $OUT
 done
 git -C /repo checkout -- . && git -C /repo clean -fdq
+cat $OUT; rm -f $OUT
